@@ -16,28 +16,108 @@ RULE = (
     "racing legs: the same threads, but the extractor (this thread) is instrumented at instruction level in inspect_frame, _parse_exception_table, unwrap_thread, unwrap_stackslice and its try_from; at every legal "
     "GIL-release boundary (after a CALL returns, before a backward jump, at RESUME) the tape may let a target take 1-4 steps (move in the frame, leave a with, return, call deeper, re-enter, exit the thread). "
     "Oracles: no signal death, no exception from extract, every reported frame belongs to the inspected thread, lowlevel.inspect_frame either raises or its (blocks, stack) name exactly the managers the frame had entered "
-    "at one of the positions the target occupied during the call. distinct = (leg, boundary kind, extractor function, target progress class) tuples and blocked-stack shapes"
+    "at one of the positions the target occupied during the call; on 3.9 / 3.10 additionally every ctypes.cast(address, py_object) inside inspect_frame is judged when it happens against an ownership log of the inspected "
+    "frame's value stack (what each slot owned at the start and after every step of the target, objects pinned so that addresses cannot be recycled): dereferencing an address the frame no longer owns is a violation "
+    "(c07_stale_pointer_dereferenced) and is withheld. distinct = (leg, boundary kind, extractor function, target progress class) tuples and blocked-stack shapes"
 )
 ASSUMPTIONS = [
-    "A-GIL: a thread loses the GIL only after a CALL completes, before a backward jump, at RESUME or inside a blocking C call (stated in stackscope's own source; holds for instrumented = unspecialised code on CPython >= 3.10); racing legs run on 3.12 and 3.11 only",
+    "A-GIL: a thread loses the GIL only after a CALL completes, before a backward jump, at RESUME or inside a blocking C call (stated in stackscope's own source; holds for instrumented = unspecialised code on CPython >= 3.10). On 3.10 a taken conditional jump and on 3.9 almost every instruction may also release the GIL: the boundaries used are a sound subset there (every hand-over shown can happen; some that can happen are not shown)",
+    "3.9 / 3.10: the stack depth of a running frame is not recorded by the interpreter; it is computed per instruction from dis.stack_effect (self-checked against f_stackdepth / f_stacktop of suspended generator frames)",
     "targets are never instrumented: they move only between generated yield points that are direct C calls, so every state shown to stackscope is one real execution can show",
     "the 'randomised stress with shortened switch intervals' part of the quantifier is not done: uncontrolled GIL scheduling is not replayable",
 ]
 REAL_VS_STUB = {"real": ["stackscope incl. ctypes frame reads", "real threads, real GIL hand-over at blocking calls", "sys.monitoring / sys.settrace instrumentation of stackscope's own code objects"],
+                "seam": ["stackscope._lowlevel_cpython_310.ctypes (module global) replaced by a pass-through stand-in that judges py_object casts and notes slot reads; nothing in /repo is changed"],
                 "stub": ["generated sync programs", "controller deciding every hand-over", "shadow managers"]}
-RARE_PROBES = ["ident_reused", "loop_template_targets", "retry_loop_taken", "snapshot_rejected", "target_frame_returned_during_inspect", "thread_exited_during_extract", "unstarted_checked", "finished_checked", "preempt_yields"]
+RARE_PROBES = ["ident_reused", "loop_template_targets", "retry_loop_taken", "snapshot_rejected", "target_frame_returned_during_inspect", "thread_exited_during_extract", "unstarted_checked", "finished_checked", "preempt_yields", "casts_checked"]
 LEGS = [
     {"name": "blocked312", "python": "3.12", "quick": 500, "thorough": 15000, "quick_s": 50, "thorough_s": 400, "run_timeout": 120, "crash_is_violation": True, "params": {"mode": "blocked"}},
     {"name": "blocked311", "python": "3.11", "quick": 250, "thorough": 6000, "quick_s": 40, "thorough_s": 300, "run_timeout": 120, "crash_is_violation": True, "params": {"mode": "blocked"}},
     {"name": "blocked310", "python": "3.10", "quick": 250, "thorough": 6000, "quick_s": 40, "thorough_s": 300, "run_timeout": 120, "crash_is_violation": True, "params": {"mode": "blocked"}},
     {"name": "blocked39", "python": "3.9", "quick": 250, "thorough": 6000, "quick_s": 40, "thorough_s": 300, "run_timeout": 120, "crash_is_violation": True, "params": {"mode": "blocked"}},
     {"name": "racing312", "python": "3.12", "quick": 4000, "thorough": 120000, "quick_s": 55, "thorough_s": 420, "run_timeout": 120, "crash_is_violation": True, "params": {"mode": "racing"}},
+    {"name": "racing310", "python": "3.10", "quick": 2500, "thorough": 80000, "quick_s": 45, "thorough_s": 400, "run_timeout": 120, "crash_is_violation": True, "params": {"mode": "racing"}},
+    {"name": "racing39", "python": "3.9", "quick": 2500, "thorough": 80000, "quick_s": 45, "thorough_s": 400, "run_timeout": 120, "crash_is_violation": True, "params": {"mode": "racing"}},
     {"name": "racing311", "python": "3.11", "quick": 2500, "thorough": 80000, "quick_s": 45, "thorough_s": 400, "run_timeout": 120, "crash_is_violation": True, "params": {"mode": "racing"}},
 ]
 
 
+class CastGuard(object):
+    """Stands in for the `ctypes` module inside stackscope._lowlevel_cpython_310.
+
+    Turning an address into an object reference (ctypes.cast(address, py_object).value
+    takes a new reference, i.e. writes to the object's header) is only memory-safe if
+    the address was read from a value-stack slot that has owned that object ever
+    since.  While the inspected thread is parked the harness knows exactly what
+    the frame owns (world.stackdepth.OwnershipLog), so every such dereference in
+    inspect_frame is judged when it happens.  An unsafe one is withheld (it would
+    corrupt this process) and recorded."""
+
+    def __init__(self, real):
+        self._real = real
+        self.log = None
+        self.stale = []
+        self.checked = 0
+        guard = self
+
+        class SizeT(object):
+            @staticmethod
+            def from_address(addr):
+                r = real.c_size_t.from_address(addr)
+                log = guard.log
+                if log is not None:
+                    slot = log.slot_of(addr)
+                    if slot is not None:
+                        log.note_read(slot, r.value)
+                return r
+
+        self.c_size_t = SizeT
+
+    def __getattr__(self, name):
+        return getattr(self._real, name)
+
+    def sizeof(self, t):
+        if t is self.c_size_t:
+            t = self._real.c_size_t
+        return self._real.sizeof(t)
+
+    def cast(self, obj, typ):
+        log = self.log
+        if typ is self._real.py_object and isinstance(obj, int) and log is not None and not log.unknown:
+            self.checked += 1
+            if not log.owned_since_read(obj):
+                self.stale.append(obj)
+                return _Stale
+        return self._real.cast(obj, typ)
+
+
+class _StaleType(object):
+    value = None
+
+    def __repr__(self):
+        return "<stale pointer>"
+
+
+_Stale = _StaleType()
+_Stale.value = _Stale
+GUARD = None
+
+
 def setup(leg, params):
     import stackscope
+
+    global GUARD
+    from stackscope import _lowlevel as _ll
+
+    # first-use self-test of the analysis must not happen inside a run
+    _ll._check_trickery_available()
+    _ll.inspect_frame(sys._getframe())
+    if sys.version_info < (3, 11) and params.get("mode") == "racing":
+        from stackscope import _lowlevel_cpython_310 as impl
+
+        if not isinstance(impl.ctypes, CastGuard):
+            GUARD = CastGuard(impl.ctypes)
+            impl.ctypes = GUARD
 
     # glue for threading must be installed before we look at bootstrap frames
     stackscope.extract(None)
@@ -149,6 +229,24 @@ def instrumented_codes():
         codes.append(impl.inspect_frame.__code__)
         codes.append(_lowlevel._parse_exception_table.__code__)
         codes.append(_lowlevel._parse_varint.__code__)
+    else:
+        from stackscope import _lowlevel_cpython_310 as impl
+
+        for fname in ("inspect_frame", "_inspect_frame", "_is_on_this_thread"):
+            fn = getattr(impl, fname, None)
+            if fn is None:
+                continue
+            c0 = fn.__code__
+            codes.append(c0)
+            # comprehensions are code objects of their own before 3.12
+            for const in c0.co_consts:
+                if hasattr(const, "co_name") and const.co_name in ("<listcomp>", "<dictcomp>", "<genexpr>"):
+                    if "get_objects" in c0.co_names and const.co_name == "<dictcomp>":
+                        # filtering the list that gc.get_objects() has already returned (one step per
+                        # object in the process): a hand-over in there has the effect of one right
+                        # after the call, which is instrumented
+                        continue
+                    codes.append(const)
     us = _glue.unwrap_stackslice
     inner = getattr(us, "__wrapped__", us)
     codes.append(inner.__code__)
@@ -220,6 +318,8 @@ def run_racing(ctx):
                 break
             tg.step()
             state["progress"] += 1
+            if GUARD is not None and GUARD.log is not None:
+                GUARD.log.record()
             if state["snapshots"] is not None and state["rec"] is not None:
                 # a frame that is off every thread's stack is either finished (no
                 # blocks at all) or the suspended frame of a generator (its
@@ -231,6 +331,50 @@ def run_racing(ctx):
         ctx.stat("preempt_yields")
         ctx.cover(("race", observe.PY, names.get(id(code), "?"), kind, min(c, 3), tg.done))
         return True
+
+    guard = GUARD
+    if guard is not None:
+        from stackscope import _lowlevel_cpython_310 as impl
+        from ..world import stackdepth
+
+        me = threading.get_ident()
+
+        def on_my_stack(fr):
+            f = sys._getframe(1)
+            while f is not None:
+                if f is fr:
+                    return True
+                f = f.f_back
+            return False
+
+        guard.stale = []
+        _lowlevel.inspect_frame(sys._getframe())  # the dispatcher replaces itself on first use
+        real_inspect = impl.inspect_frame
+
+        def watched_inspect(frame):
+            # frames of this very thread cannot change under the inspecting code
+            if guard.log is not None or on_my_stack(frame):
+                return real_inspect(frame)
+            guard.log = stackdepth.OwnershipLog(frame, impl.FrameObjectStart, frame_done)
+            try:
+                return real_inspect(frame)
+            finally:
+                guard.log.close()
+                guard.log = None
+
+        _lowlevel.inspect_frame = watched_inspect
+        lowlevel.inspect_frame = watched_inspect
+
+    def check_stale(what):
+        if guard is not None and guard.stale:
+            n = len(guard.stale)
+            guard.stale = []
+            raise Violation(
+                "c07_stale_pointer_dereferenced",
+                "%s: inspect_frame turned %d address(es) read earlier from the running frame's value stack into object references "
+                "after the frame had stopped owning them (use after free; the harness withheld the dereference)" % (what, n),
+                {"events": events[-10:], "progress": state["progress"]},
+            )
 
     try:
         for tg in tgs:
@@ -273,6 +417,7 @@ def run_racing(ctx):
                     except Exception as e:
                         raise Violation("c07_racing_extract_raised", "extract raised %r while the target was racing" % (e,), {"events": events[-10:]})
                 ctx.stat("racing_extractions")
+                check_stale("extract(thread)")
                 if tg.done and not before_dead:
                     ctx.stat("thread_exited_during_extract")
                 # frames created later by the same thread are fine too
@@ -304,6 +449,7 @@ def run_racing(ctx):
                         ctx.stat("snapshot_rejected")
                         if "consistent" in str(e):
                             ctx.stat("retry_loop_exhausted")
+                check_stale("inspect_frame(frame of running thread)")
                 if state.get("pet_starts", 0) > 2:
                     ctx.stat("retry_loop_taken")
                 snaps = state["snapshots"]
@@ -337,6 +483,12 @@ def run_racing(ctx):
                 ctx.log("I", res is not None, len(snaps), state["progress"])
         ctx.case["events"] = events[:60]
     finally:
+        if guard is not None:
+            guard.log = None
+            _lowlevel.inspect_frame = real_inspect
+            lowlevel.inspect_frame = real_inspect
+            ctx.stat("casts_checked", guard.checked)
+            guard.checked = 0
         for tg in tgs:
             tg.finish()
     ctx.sample = {"programs": [tg.program for tg in tgs][:1], "events": events[:30]}
